@@ -15,10 +15,10 @@ REPO = '/repo'
 env = dict(os.environ)
 if scratch:
     # work on a throw-away copy of /repo's committed tree so that runs against /repo itself are not disturbed
-    REPO = '/tmp/seedrepo'
+    REPO = '/tmp/seedrepo-%d' % os.getpid()
     subprocess.run(['rm', '-rf', REPO])
     subprocess.check_call('mkdir -p %s && git -C /repo archive HEAD | tar -x -C %s && cd %s && git init -q . && git add -A >/dev/null && git -c user.email=a@b -c user.name=s commit -qm base' % (REPO, REPO, REPO), shell=True)
-    env.update(REPO=REPO, VERIF_OUT='/tmp/seedout', VERIF_EVIDENCE='/tmp/seedout/evidence', VERIF_BUILD='/tmp/seedbuild')
+    env.update(REPO=REPO, VERIF_OUT=REPO + '-out', VERIF_EVIDENCE=REPO + '-out/evidence', VERIF_BUILD=REPO + '-build')
 elif subprocess.run(['git', '-C', '/repo', 'diff', '--quiet']).returncode != 0:
     sys.exit('/repo has uncommitted changes')
 head = subprocess.run(['git', '-C', '/repo', 'rev-parse', '--short', 'HEAD'], stdout=subprocess.PIPE).stdout.decode().strip()
@@ -49,3 +49,6 @@ for sid in ids:
     finally:
         subprocess.check_call(['git', '-C', REPO, 'checkout', '--', '.'])
     json.dump(meta, open(os.path.join(d, 'meta.json'), 'w'), indent=1)
+
+if scratch:
+    subprocess.run(['rm', '-rf', REPO, REPO + '-out', REPO + '-build'])
